@@ -25,6 +25,53 @@ func init() {
 	stdModels["encoding/binary.Write"] = binaryWrite
 	stdModels["encoding/binary.Size"] = binarySize
 	stdModels["io.ReadAll"] = ioReadAll
+	stdModels["io.Copy"] = ioCopyRecord
+}
+
+// io.Copy(dst, bytes.NewReader(b)) where dst is a *T whose Write method is under contract:
+// (*bytes.Reader).WriteTo hands the unread part s[i:] to dst in ONE Write call; io.Copy
+// returns (n, err) of that call (ErrShortWrite when n < len without error).
+func ioCopyRecord(x *Exec, fr *frame, ins ssa.CallInstruction, c *ssa.CallCommon, args []Val, st *State, r string) (Val, string) {
+	hv := func() (Val, string) {
+		return x.havocCall("io.Copy", c.Signature().Results(), args, c.Args, st, r), r
+	}
+	dmi, ok := c.Args[0].(*ssa.MakeInterface)
+	rp, rpt, kind := x.readerObj(fr, c.Args[1])
+	if !ok || kind != "reader" {
+		return hv()
+	}
+	pt, ok := dmi.X.Type().Underlying().(*types.Pointer)
+	if !ok {
+		return hv()
+	}
+	nt, ok := pt.Elem().(*types.Named)
+	if !ok || nt.Obj().Pkg() == nil {
+		return hv()
+	}
+	key := nt.Obj().Pkg().Name() + ".(*" + nt.Obj().Name() + ").Write"
+	ct, fn := x.eng.contracts[key], x.eng.funcs[key]
+	if ct == nil || fn == nil || len(ct.Ensures) == 0 || fn == x.top {
+		return hv()
+	}
+	used("io.Copy(dst, bytes.NewReader(b)): one dst.Write call with the unread part of b; its (n, err) is returned (io.ErrShortWrite when n < len and err == nil)")
+	so, stype := x.fieldAt(rpt, "s")
+	po, _ := x.fieldAt(rpt, "i")
+	src := x.vc.S.defVal("cs", x.vc.load(st, x.vc.ls.of(stype), rp[0].T, add(rp[1].T, itoa(int64(so)))))
+	pos := x.vc.S.def("cpos", ic(x.vc.read(st.Mem, rp[0].T, add(rp[1].T, itoa(int64(po)))))).T
+	x.vc.S.fact(r, and(sx("<=", "0", pos), sx("<=", pos, src[2].T)))
+	p := Val{src[0], ic(add(src[1].T, pos)), ic(sub(src[2].T, pos)), ic(sub(src[3].T, pos))}
+	x.vc.store(st, rp[0].T, add(rp[1].T, itoa(int64(po))), Val{src[2]})
+	cs := &CallSite{Instr: ins, Fn: fr.fn, Depth: fr.depth, Callee: key, Reach: r, Args: []Val{x.val(fr, dmi.X), p}, Pos: ins.Pos(), StBefore: st.clone()}
+	if x.lastSite != nil && x.lastSite.Instr == ins {
+		cs.Ord = x.lastSite.Ord
+	}
+	wres, r2 := x.callContract(fr, cs, fn, ct, cs.Args, st, r)
+	// (n int, err error) -> (written int64, err error)
+	short := and(eq(wres[1].T, "0"), not(eq(wres[0].T, p[2].T)))
+	ev := x.havocVal(types.NewTuple(c.Signature().Results().At(1)), st, r2, "copy_err")
+	x.vc.S.fact(r2, implies(short, not(eq(ev[0].T, "0"))))
+	x.vc.S.fact(r2, implies(not(short), and(eq(ev[0].T, wres[1].T), eq(ev[1].T, wres[2].T), eq(ev[2].T, wres[3].T))))
+	return Val{wres[0], ev[0], ev[1], ev[2]}, r2
 }
 
 func structField(t types.Type, name string) (idx int, st *types.Struct) {
